@@ -193,6 +193,9 @@ fn data_twins(front: Front, reg: Reg, flip_bit: Option<usize>, rng: &mut Prng, c
     let mut inserted_kinds: Vec<RK> = vec![];
     let mut insertion_points: Vec<&str> = vec![];
     let mut auth_delivered = false;
+    // the counter of the last downlink both twins have accepted so far (model), and its bytes
+    let mut cur: Option<u32> = last_before_auth;
+    let mut last_good: Option<Vec<u8>> = None;
     for k in 0..ninsert {
         let mut kind = if flip_bit.is_some() { RK::BitFlip } else { *rng.pick(&RKS) };
         if adr_mode && matches!(kind, RK::Replay | RK::Stale) && start_down.is_none() {
@@ -206,8 +209,12 @@ fn data_twins(front: Front, reg: Reg, flip_bit: Option<usize>, rng: &mut Prng, c
         if matches!(kind, RK::Replay | RK::Stale) && !auth_delivered && !adr_mode {
             steps.push(Step { data: vec![3], port: 2, confirmed: false, a: Script::rx1(auth.clone()), b: Script::rx1(auth.clone()), b_may_end_early: false, note: "authentic".into() });
             auth_delivered = true;
+            cur = Some(n_auth);
+            last_good = Some(auth.clone());
         }
-        let cur_last = if auth_delivered { Some(n_auth) } else { last_before_auth };
+        let cur_last = cur;
+        // counters of the frames below are relative to what the session has accepted so far
+        let n_auth = cur.unwrap_or(0);
         let frame: Vec<u8> = match kind {
             RK::Random => {
                 let n = rng.range(1, 60) as usize;
@@ -235,7 +242,7 @@ fn data_twins(front: Front, reg: Reg, flip_bit: Option<usize>, rng: &mut Prng, c
             // session started from
             RK::Replay if adr_mode => net.downlink(&Down { fcnt: start_down.unwrap_or(0), port: Some(4), payload: &[4], confirmed: rng.bool(), ..Default::default() }),
             RK::Stale if adr_mode => net.downlink(&Down { fcnt: start_down.unwrap_or(0).saturating_sub(1 + rng.below(3) as u32), port: Some(4), payload: &[4], ..Default::default() }),
-            RK::Replay => auth.clone(),
+            RK::Replay => last_good.clone().unwrap_or_else(|| auth.clone()),
             RK::Stale => net.downlink(&Down { fcnt: n_auth.saturating_sub(1 + rng.below(3) as u32), port: Some(4), payload: &[4], confirmed: true, ..Default::default() }),
             RK::ExactMaxBadMic => {
                 // MACPayload = 7 (FHDR) + 1 (FPort) + 51 = 59 bytes, the RX2 limit in these plans
@@ -298,9 +305,15 @@ fn data_twins(front: Front, reg: Reg, flip_bit: Option<usize>, rng: &mut Prng, c
             }
             2 => {
                 // followed by an authentic accepted frame: nb same window, async next window
-                let n = n_auth + 2 + k as u32 * 3;
+                let n = match cur {
+                    Some(c) => c + 1,
+                    None => 0,
+                };
+                let _ = k;
                 let good = net.downlink(&Down { fcnt: n, port: Some(8), payload: &[8], ..Default::default() });
                 if kind != RK::Oversize {
+                    cur = Some(n);
+                    last_good = Some(good.clone());
                     if front == Front::Nb {
                         sa.rx1.push(good.clone());
                         sb.rx1.push(frame.clone());
@@ -352,7 +365,7 @@ fn data_twins(front: Front, reg: Reg, flip_bit: Option<usize>, rng: &mut Prng, c
     }
     steps.push(silent("tail", rng));
     {
-        let n = n_auth + 20;
+        let n = cur.map(|c| c + 1).unwrap_or(0);
         let fr = net.downlink(&Down { fcnt: n, port: Some(6), payload: &[6], ..Default::default() });
         steps.push(Step { data: vec![5], port: 2, confirmed: false, a: Script::rx1(fr.clone()), b: Script::rx1(fr), b_may_end_early: false, note: "tail-downlink".into() });
     }
